@@ -26,6 +26,7 @@ type Parser struct {
 	currentToken *Token // Current token being processed
 	peekToken    *Token // Next token (lookahead)
 	resolver     ReferenceResolver
+	err          error // First tokenizer error; once set no further tokens are read
 }
 
 // SetReferenceResolver sets the reference resolver for the parser.
@@ -50,6 +51,14 @@ func NewParser(r io.Reader) *Parser {
 func (p *Parser) nextToken() error {
 	p.currentToken = p.peekToken
 
+	// A tokenizer error is final: the lexer may not have consumed the offending
+	// byte, so asking again would return the same error forever. The lookahead
+	// drains to nil and every parse loop stops on the nil current token.
+	if p.err != nil {
+		p.peekToken = nil
+		return p.err
+	}
+
 	// If we just moved "stream" into currentToken, don't try to read the next token
 	// because it's binary data that can't be tokenized normally.
 	// The parseStream function will handle reading the binary data directly.
@@ -62,10 +71,21 @@ func (p *Parser) nextToken() error {
 
 	token, err := p.lexer.NextToken()
 	if err != nil {
+		p.err = err
+		p.peekToken = nil
 		return err
 	}
 	p.peekToken = token
 	return nil
+}
+
+// endErr is the error reported when the token stream ends early: the tokenizer
+// error that ended it, if any.
+func (p *Parser) endErr() error {
+	if p.err != nil {
+		return p.err
+	}
+	return fmt.Errorf("unexpected end of input")
 }
 
 // skipComments skips over any consecutive comment tokens.
@@ -88,7 +108,7 @@ func (p *Parser) ParseObject() (Object, error) {
 	}
 
 	if p.currentToken == nil {
-		return nil, fmt.Errorf("unexpected end of input")
+		return nil, p.endErr()
 	}
 
 	switch p.currentToken.Type {
@@ -223,7 +243,7 @@ func (p *Parser) parseArray() (Object, error) {
 
 		// Check for end of array
 		if p.currentToken == nil {
-			return nil, fmt.Errorf("unexpected end of input in array")
+			return nil, fmt.Errorf("unexpected end of input in array: %w", p.endErr())
 		}
 		if p.currentToken.Type == TokenArrayEnd {
 			p.nextToken()
@@ -260,7 +280,7 @@ func (p *Parser) parseDict() (Object, error) {
 
 		// Check for end of dict
 		if p.currentToken == nil {
-			return nil, fmt.Errorf("unexpected end of input in dictionary")
+			return nil, fmt.Errorf("unexpected end of input in dictionary: %w", p.endErr())
 		}
 		if p.currentToken.Type == TokenDictEnd {
 			p.nextToken()
@@ -298,6 +318,9 @@ func (p *Parser) ParseIndirectObject() (*IndirectObject, error) {
 	}
 
 	// Parse object number
+	if p.currentToken == nil {
+		return nil, p.endErr()
+	}
 	if p.currentToken.Type != TokenInteger {
 		return nil, fmt.Errorf("expected object number, got %v", p.currentToken.Type)
 	}
@@ -309,6 +332,9 @@ func (p *Parser) ParseIndirectObject() (*IndirectObject, error) {
 	p.nextToken()
 
 	// Parse generation number
+	if p.currentToken == nil {
+		return nil, p.endErr()
+	}
 	if p.currentToken.Type != TokenInteger {
 		return nil, fmt.Errorf("expected generation number, got %v", p.currentToken.Type)
 	}
@@ -320,6 +346,9 @@ func (p *Parser) ParseIndirectObject() (*IndirectObject, error) {
 	p.nextToken()
 
 	// Parse 'obj' keyword
+	if p.currentToken == nil {
+		return nil, p.endErr()
+	}
 	if p.currentToken.Type != TokenKeyword || string(p.currentToken.Value) != "obj" {
 		return nil, fmt.Errorf("expected 'obj' keyword, got %v", p.currentToken)
 	}
@@ -332,6 +361,9 @@ func (p *Parser) ParseIndirectObject() (*IndirectObject, error) {
 	}
 
 	// Check for stream
+	if p.currentToken == nil {
+		return nil, p.endErr()
+	}
 	if p.currentToken.Type == TokenKeyword && string(p.currentToken.Value) == "stream" {
 		// This is a stream object
 		if dict, ok := obj.(Dict); ok {
@@ -346,6 +378,9 @@ func (p *Parser) ParseIndirectObject() (*IndirectObject, error) {
 	}
 
 	// Parse 'endobj' keyword
+	if p.currentToken == nil {
+		return nil, p.endErr()
+	}
 	if p.currentToken.Type != TokenKeyword || string(p.currentToken.Value) != "endobj" {
 		return nil, fmt.Errorf("expected 'endobj' keyword, got %v", p.currentToken)
 	}
